@@ -20,13 +20,29 @@ CLAIMED = {
   'note': 'Trusted: Verus/Z3, vstd HashMap/Vec/Arc specs plus added axioms for String keys and Vec::retain; Definitions/ModelEvaluator opaque (namespace, name, builds uninterpreted); '
           'load_and_deploy_models (file system) assumed to preserve the invariant.',
  },
+ 'C15': {
+  'text': 'Verus proves on the real bodies, for all i32 years / u8 months and days / i64 and i128 durations: leap years and month lengths are the Gregorian rules; '
+          'is_valid_date and new_opt accept exactly valid dates in the FEEL year range; date(y,m,d) from integer-valued numbers accepts exactly valid triples and stores them unchanged; '
+          'date equality and order are the calendar order (total); ym_duration is the number of whole months (antisymmetric, truncated toward zero); '
+          'duration component getters are the normalised mixed-radix decomposition. Partial: instants/zones/weekday rely on chrono and are not decided.',
+  'design_ref': 'DESIGN.md section 5 C15',
+  'note': 'Trusted: Verus/Z3; chrono accepts only valid dates (stub); FeelNumber order/conversions exact on integers (stubs); abs specs. Not decided: date-time instants, zone rules, weekday, non-integer arguments.',
+ },
+ 'C14': {
+  'text': 'Verus proves on the real Display bodies that the arguments handed to write! denote the value: the printed UTC offset (sign character, hours, minutes, seconds) equals the stored offset '
+          'for every i32 offset; each of the 32 arms of the days-and-time duration printer and the 4 arms of the years-and-months printer prints exactly the non-zero components of the '
+          'normalised decomposition with the right sign (PT36H -> P1DT12H, P14M -> P1Y2M); FeelZone::new and is_valid_time meet their definitions. Partial: literal acceptance (regex), '
+          'fraction parsing (f64) and the formatter itself are not decided.',
+  'design_ref': 'DESIGN.md section 5 C14',
+  'note': 'Trusted: Verus/Z3; core::fmt renders the constrained arguments as documented (R5 sinks, slots derived mechanically from the format literal); nanoseconds_to_string opaque.',
+ },
 }
 NOT_APPLICABLE = {
  'C01': TODO, 'C02': TODO, 'C03': TODO,
  'C04': 'the property is about dyn Fn closures stored in RwLock<HashMap> registries calling one another along the requirement graph; no first-order function carries it, Verus has no support for dyn Fn fields / std RwLock guards, Kani cannot bound the graph (DESIGN.md section 6)',
  'C05': TODO, 'C06': TODO,
  'C07': 'deciding code is str/format!/C decNumber string conversion (scientific_to_plain, decQuadToString); Verus has no specs for these str APIs and Kani/CBMC did not finish a 3-character instance in 15 min (DESIGN.md section 6)',
- 'C08': TODO, 'C09': TODO, 'C10': TODO, 'C11': TODO, 'C12': TODO, 'C13': TODO, 'C14': TODO, 'C15': TODO,
+ 'C08': TODO, 'C09': TODO, 'C10': TODO, 'C11': TODO, 'C12': TODO, 'C13': TODO,
  'C18': TODO, 'C19': TODO,
  'C20': 'a schedule property: Kani has no thread support and Verus would need the code rewritten onto its own permission/atomic types; Send+Sync is checked by rustc, not by this family (DESIGN.md section 6)',
 }
